@@ -747,6 +747,15 @@ func (s *aclWorldState) judgeFilter(i int, st Step) *simkit.Violation {
 		s.r.Hit("probe.filter-cases")
 		return nil
 	}
+	// again: the endpoints evaluate a blocking query several times into the same reply; an evaluation that
+	// removes nothing must not report filtering because an earlier one did
+	again := func(what string, v any, flag func() bool) *simkit.Violation {
+		flt.Filter(v)
+		if flag() {
+			return mk(what, "filtering the already filtered response again removes nothing, yet the filtered flag is still set")
+		}
+		return nil
+	}
 	// IndexedNodes
 	{
 		var v structs.IndexedNodes
@@ -762,6 +771,9 @@ func (s *aclWorldState) judgeFilter(i int, st Step) *simkit.Violation {
 			out = append(out, x.Node)
 		}
 		if vi := check("IndexedNodes", in, out, nodeOK, v.ResultsFilteredByACLs); vi != nil {
+			return vi
+		}
+		if vi := again("IndexedNodes", &v, func() bool { return v.ResultsFilteredByACLs }); vi != nil {
 			return vi
 		}
 	}
@@ -782,6 +794,9 @@ func (s *aclWorldState) judgeFilter(i int, st Step) *simkit.Violation {
 			out = append(out, x.Node+"|"+x.ServiceName)
 		}
 		if vi := check("IndexedServiceNodes", in, out, pairOK, v.ResultsFilteredByACLs); vi != nil {
+			return vi
+		}
+		if vi := again("IndexedServiceNodes", &v, func() bool { return v.ResultsFilteredByACLs }); vi != nil {
 			return vi
 		}
 	}
@@ -805,6 +820,9 @@ func (s *aclWorldState) judgeFilter(i int, st Step) *simkit.Violation {
 		if vi := check("IndexedHealthChecks", in, out, pairOK, v.ResultsFilteredByACLs); vi != nil {
 			return vi
 		}
+		if vi := again("IndexedHealthChecks", &v, func() bool { return v.ResultsFilteredByACLs }); vi != nil {
+			return vi
+		}
 	}
 	// IndexedCheckServiceNodes
 	{
@@ -822,6 +840,9 @@ func (s *aclWorldState) judgeFilter(i int, st Step) *simkit.Violation {
 			out = append(out, x.Node.Node+"|"+x.Service.Service)
 		}
 		if vi := check("IndexedCheckServiceNodes", in, out, pairOK, v.ResultsFilteredByACLs); vi != nil {
+			return vi
+		}
+		if vi := again("IndexedCheckServiceNodes", &v, func() bool { return v.ResultsFilteredByACLs }); vi != nil {
 			return vi
 		}
 	}
@@ -901,6 +922,9 @@ func (s *aclWorldState) judgeFilter(i int, st Step) *simkit.Violation {
 			return mk("IndexedNodeDump", fmt.Sprintf("dump %v filtered to %v but the filtered flag is %v", in, out, v.ResultsFilteredByACLs))
 		}
 		s.r.Hit("probe.filter-cases")
+		if vi := again("IndexedNodeDump", &v, func() bool { return v.ResultsFilteredByACLs }); vi != nil {
+			return vi
+		}
 	}
 	// DatacenterIndexedCheckServiceNodes: per datacenter; emptied datacenters go; one flag for all
 	{
@@ -937,6 +961,42 @@ func (s *aclWorldState) judgeFilter(i int, st Step) *simkit.Violation {
 			return mk("DatacenterIndexedCheckServiceNodes", fmt.Sprintf("entries removed=%v but the filtered flag is %v (kept %v)", removed, v.ResultsFilteredByACLs, got))
 		}
 		s.r.Hit("probe.filter-cases")
+		if vi := again("DatacenterIndexedCheckServiceNodes", &v, func() bool { return v.ResultsFilteredByACLs }); vi != nil {
+			return vi
+		}
+	}
+	// IndexedIntentions: read access on either end shows the intention; a source that lives in a peer is
+	// not a name of this cluster, so only the destination end counts for it
+	{
+		var v structs.IndexedIntentions
+		var in []string
+		for k, n := 0, cnt(); k < n; k++ {
+			src, dst, peer := pickS(), pickS(), ""
+			if rng.IntN(3) == 0 {
+				peer = "east"
+			}
+			in = append(in, peer+"/"+src+">"+dst)
+			v.Intentions = append(v.Intentions, &structs.Intention{ID: fmt.Sprint("i", k), SourceNS: "default", SourceName: src, SourcePeer: peer, DestinationNS: "default", DestinationName: dst, Action: structs.IntentionActionAllow})
+		}
+		flt.Filter(&v)
+		var out []string
+		for _, x := range v.Intentions {
+			out = append(out, x.SourcePeer+"/"+x.SourceName+">"+x.DestinationName)
+		}
+		ixnOK := func(e string) bool {
+			parts := strings.SplitN(e, "/", 2)
+			sd := strings.SplitN(parts[1], ">", 2)
+			if authz.IntentionRead(sd[1], nil) == acl.Allow {
+				return true
+			}
+			return parts[0] == "" && authz.IntentionRead(sd[0], nil) == acl.Allow
+		}
+		if vi := check("IndexedIntentions", in, out, ixnOK, v.ResultsFilteredByACLs); vi != nil {
+			return vi
+		}
+		if vi := again("IndexedIntentions", &v, func() bool { return v.ResultsFilteredByACLs }); vi != nil {
+			return vi
+		}
 	}
 	// ACL tokens: unreadable ones go, secrets are hidden from readers without acl:write - in the
 	// answer, never in the objects the answer was built from (they are the stored tokens)
@@ -986,6 +1046,9 @@ func (s *aclWorldState) judgeFilter(i int, st Step) *simkit.Violation {
 		if vi := check("IndexedSessions", in, out, func(n string) bool { return authz.SessionRead(n, nil) == acl.Allow }, v.ResultsFilteredByACLs); vi != nil {
 			return vi
 		}
+		if vi := again("IndexedSessions", &v, func() bool { return v.ResultsFilteredByACLs }); vi != nil {
+			return vi
+		}
 	}
 	// IndexedCoordinates
 	{
@@ -1002,6 +1065,9 @@ func (s *aclWorldState) judgeFilter(i int, st Step) *simkit.Violation {
 			out = append(out, x.Node)
 		}
 		if vi := check("IndexedCoordinates", in, out, nodeOK, v.ResultsFilteredByACLs); vi != nil {
+			return vi
+		}
+		if vi := again("IndexedCoordinates", &v, func() bool { return v.ResultsFilteredByACLs }); vi != nil {
 			return vi
 		}
 	}
@@ -1021,6 +1087,9 @@ func (s *aclWorldState) judgeFilter(i int, st Step) *simkit.Violation {
 		}
 		sort.Strings(out)
 		if vi := check("IndexedServices", in, out, svcOK, v.ResultsFilteredByACLs); vi != nil {
+			return vi
+		}
+		if vi := again("IndexedServices", &v, func() bool { return v.ResultsFilteredByACLs }); vi != nil {
 			return vi
 		}
 	}
